@@ -4,6 +4,11 @@ HERE = os.path.dirname(os.path.dirname(os.path.abspath(__file__)))
 BASE = json.load(open("/root/.vp/BASELINE.json"))["cmd"]
 
 CHECKS = {
+ "C02": dict(
+   technique="bounded exhaustive enumeration of training histories (row sequences x compositions into fit+partial_fit x arm additions x query batch sizes) against an exact-rational ridge-regression reference executed in lock-step",
+   text="For every policy setting, lambda, scale flag and feature count 1..3, every row sequence up to the length bound over the row alphabet, every composition into fit + partial_fit*, three arm-addition variants and query batches of 1..3 rows are executed on the implementation and compared with Gaussian elimination over fractions. Exhaustive within the alphabet.",
+   note="n<=3 rows over 4 rows (quick) / n<=4 over 6 rows (thorough); tolerance 1e-9 (1e-6 for LinTS at alpha=1e-9 and for scale=True); known finding F-C02-a (unobserved-arm covariance) is attributed by trigger + in-memory repair",
+   ref="DESIGN.md section 7 (C02), section 8"),
  "C01": dict(
    technique="explicit-state BFS over the real bandit in lock-step with an exact-rational reference model (product state = bandit digest x reference state); sampler replayed bit-exactly on a cloned generator",
    text="Every history up to the depth bound over {fit, partial_fit with every 1-row and ordered 2-row batch, add_arm, remove_arm, re-add} is executed for each context-free policy setting and label type; after every transition the learned expectations must equal the reference model's statistic and predict_expectations() must equal the documented sampler applied to them.",
